@@ -177,12 +177,15 @@ structure St (α : Type) where
 
 /-- `while (curr->L < params.L_max && qub_violated(*curr)) { γ /= 2; L *= 2; prox; ψ(x̂); ++bt }`.
     Returns (iterate, tick, backtracks, fuel exhausted). -/
-def qubLoop (P : Problem α) (pr : Params α) : Nat → Iterate α → Nat → Nat → Iterate α × Nat × Nat × Bool
+def qubLoop (P : Problem α) (pr : Params α) (stop : Nat → Bool) :
+    Nat → Iterate α → Nat → Nat → Iterate α × Nat × Nat × Bool
   | 0, c, t, b => (c, t, b, true)
   | f + 1, c, t, b =>
+    -- `while (!stop_signal.stop_requested() && curr->L < L_max && qub_violated(*curr))`
+    if stop t then (c, t, b, false) else
     if decide (c.L < pr.Lmax) && qubViolated pr c then
       let gl := fista_backtrack c.gamma c.L
-      qubLoop P pr f (evalPsiHat P (evalProxGradStep P { c with gamma := gl.1, L := gl.2 })) (t + 2) (b + 1)
+      qubLoop P pr stop f (evalPsiHat P (evalProxGradStep P { c with gamma := gl.1, L := gl.2 })) (t + 2) (b + 1)
     else (c, t, b, false)
 
 /-- `prev_x̂.swap(curr->x̂); eval_prox_grad_step(*curr); if (!fixed_lipschitz || need_grad_ψx̂) eval_ψx̂(*curr);`
@@ -202,8 +205,8 @@ def withGradHat (P : Problem α) (pr : Params α) (c : Iterate α) : Iterate α 
 /-- "Proximal gradient step" and "Quadratic upper bound" sections of the loop body:
     `prev_x̂.swap(curr->x̂); eval_prox_grad_step; [eval_ψx̂]; while (…) {…}; [eval_grad_ψx̂]`
     (∇ψ(x̂) is evaluated once, at the accepted step, after the backtracking loop). -/
-def proxStage (P : Problem α) (pr : Params α) (s : St α) : St α :=
-  let r := qubLoop P pr pr.qubFuel (firstStep P pr s) (firstTick pr s) s.backtracks
+def proxStage (P : Problem α) (pr : Params α) (stop : Nat → Bool) (s : St α) : St α :=
+  let r := qubLoop P pr stop pr.qubFuel (firstStep P pr s) (firstTick pr s) s.backtracks
   { s with curr := withGradHat P pr r.1, prev := s.curr.xhat,
            tick := r.2.1 + (if needGradHat pr then 1 else 0),
            backtracks := r.2.2.1, fuelOut := s.fuelOut || r.2.2.2 }
@@ -266,7 +269,7 @@ def mainLoop (P : Problem α) (pr : Params α) (stop : Nat → Bool) (oot : Bool
     (x0 y Sig errz0 : Vec α) : Nat → St α → Result α
   | 0, s => { (exitBlock P pr s (0 : α) .Exception x0 y Sig errz0) with fuelOut := true }
   | fuel + 1, s =>
-    let h := headStep P pr stop oot (proxStage P pr s)
+    let h := headStep P pr stop oot (proxStage P pr stop s)
     if h.2.2 != .Busy then exitBlock P pr h.1 h.2.1 h.2.2 x0 y Sig errz0
     else mainLoop P pr stop oot x0 y Sig errz0 fuel (advance P pr h.1 h.2.1)
 
